@@ -5,6 +5,7 @@
 -/
 import RevalModel.Lemmas.Adequacy
 import RevalModel.Lemmas.Denote
+import RevalModel.Lemmas.Liveness
 
 namespace Reval.C12
 
@@ -99,6 +100,32 @@ theorem deterministic (env : Env) (hd : Deterministic env) (rules : List Expr) :
   rw [ruleset_adequacy]
   exact evalRules_denote env hd rules 0 St.init (consistent_init env)
 
+/-- progress: an evaluation finishes once the schedule has polled it `need` times — a number fixed by that task
+    alone (one poll per user-function call plus the suspensions of each call) — whatever else is polled in between,
+    in whatever order; and it then holds exactly the sequential result. No evaluation can be starved or blocked by
+    another one. -/
+theorem fair_schedule_completes {α : Type} (env : Env) (susp : Str → Value → Nat → Nat) (sched : List Nat)
+    (ts : List (Task α)) (i : Nat) (t : Task α) (h : ts[i]? = some t) (hf : need env susp t ≤ sched.count i) :
+    ∃ p, (runSched env susp sched ts)[i]? = some ⟨.done (run env t.res), p⟩ := by
+  obtain ⟨t', h1, h2⟩ := need_runSched env susp sched ts i t h
+  obtain ⟨a, ha⟩ := need_zero_done env susp t' (by omega)
+  have hs := congrArg (fun l => l[i]?) (schedule_independent env susp sched ts)
+  simp only [List.getElem?_map, h1, h, Option.map_some, Option.some.injEq, ha, run] at hs
+  obtain ⟨res, p⟩ := t'
+  simp only at ha
+  subst ha
+  exact ⟨p, by rw [h1, hs]⟩
+
+/-- … and not before: polled fewer times than that, it is still waiting on a user function (the count is exact) -/
+theorem completes_exactly_then {α : Type} (env : Env) (susp : Str → Value → Nat → Nat) (sched : List Nat)
+    (ts : List (Task α)) (i : Nat) (t : Task α) (h : ts[i]? = some t) (hf : sched.count i < need env susp t) :
+    ∃ t', (runSched env susp sched ts)[i]? = some t' ∧ ∀ a, t'.res ≠ .done a := by
+  obtain ⟨t', h1, h2⟩ := need_runSched env susp sched ts i t h
+  refine ⟨t', h1, ?_⟩
+  intro a ha
+  have : need env susp t' = 0 := by simp [need, ha]
+  omega
+
 /-! non-vacuity: two evaluations of a ruleset with a suspending function, interleaved -/
 def demoEnv : Env := ⟨.map [(['x'], .int 2)], [], [(['g'], ⟨true, fun _ v => .ok v⟩)], Oracle.empty⟩
 def demoTasks : List (Task (List (Res Value) × St × List Event)) :=
@@ -106,5 +133,11 @@ def demoTasks : List (Task (List (Res Value) × St × List Event)) :=
    ⟨rulesetTask demoEnv [.bin .add (.call ['g'] (.ref ['x'])) (.lit (.int 1))], 2⟩]
 example : ((runSched demoEnv (fun _ _ _ => 1) [0, 1, 1, 0, 1, 0, 0, 1, 0, 1] demoTasks).map (fun t => (run demoEnv t.res).1)) =
     [[.ok (.int 2), .ok (.int 7)], [.ok (.int 3)]] := by decide
+
+example : demoTasks.map (need demoEnv (fun _ _ _ => 1)) = [4, 3] := by decide
+example : ((runSched demoEnv (fun _ _ _ => 1) [0, 1, 1, 0, 1, 0] demoTasks).map (fun t => match t.res with | .done _ => true | _ => false)) =
+    [false, true] := by decide
+example : ((runSched demoEnv (fun _ _ _ => 1) [0, 1, 1, 0, 1, 0, 0] demoTasks).map (fun t => match t.res with | .done _ => true | _ => false)) =
+    [true, true] := by decide
 
 end Reval.C12
